@@ -204,7 +204,7 @@ PROPS["C07"] = dict(
 
 PROPS["C01"] = dict(
     suites=["c01", "c03b", "c01l"],
-    lean_modules=["ServlinVerif.Props.C01"],
+    lean_modules=["ServlinVerif.Props.C01", "ServlinVerif.Props.C01Bound"],
     audit="Audit/C01.lean",
     rule="read_http_request on scripted streams (FixedBuf<16|64|8192>): exhaustive strings over {G / SP : CR LF 0x80 a} up to length 6 (7 "
          "thorough); exhaustive 12 request-line variants x <=5 (6) tokens over {a : SP HT CR LF 0x80} + CRLFCRLF + tail; 6000 (60000) "
